@@ -387,6 +387,8 @@ func (e *Engine) setOption(o string) {
 		e.opt.IntMode = true
 	case "no-merge":
 		e.opt.NoMerge = true
+	case "minimize-words":
+		e.opt.MinimizeWords = true
 	case "footprints":
 		e.opt.Footprints = true
 	case "reverse-tasks":
